@@ -138,6 +138,37 @@ class Directed(Sched):
         return runnable[0]
 
 
+class Plan(Sched):
+    """Systematic preemption: follow a plan [(thread, n), ...] - run `thread` until it has passed n more yield points
+    (or cannot run) - then run the remaining threads one after the other to completion in the given order (a thread
+    that blocks lets the next one run).  Sweeping n over all yield points of a victim thread covers every schedule
+    with that many preemptions exactly once, which seeded random walks reach only with small probability."""
+
+    def __init__(self, plan, order, **kw):
+        super().__init__(0, **kw)
+        self.plan = [list(p) for p in plan]
+        self.order = list(order)
+        self.yields = {}
+        self.plan_completed = False
+
+    def choose(self, runnable):
+        # the thread that just yielded is self.cur (None at the start)
+        if self.cur is not None:
+            self.yields[self.cur] = self.yields.get(self.cur, 0) + 1
+            if self.plan and self.plan[0][0] == self.cur:
+                self.plan[0][1] -= 1
+        while self.plan:
+            th, n = self.plan[0]
+            if n > 0 and th in runnable:
+                return th
+            self.plan.pop(0)             # segment finished, or its thread is done / blocked
+        self.plan_completed = True
+        for th in self.order:
+            if th in runnable:
+                return th
+        return runnable[0]
+
+
 S = None       # the scheduler of the current run
 
 
